@@ -99,6 +99,22 @@ def r2(ctx):
             return {('Ok',): 1, ('Err',): -1}.get(c[2])
         return None
     istry = lambda c, pol: pol and c[0] == 'is' and c[2] == ('Continue',)
+
+    def via_special(src):
+        """the bytes appended for an id that is not a byte come from special_vocab.id_to_token(id) -- directly, or as the success value of a
+        spliced helper (every non-error alternative of it)"""
+        SP = Call('Vocab::id_to_token', ('field', ('arg', 1, ANY), 'special_vocab'), ITEM)
+        if has(core(src), SP):
+            return True
+        # (alternatives of a local are expressed over the loop's own pull instead of the $item placeholder)
+        PULL = Pred(lambda u: core(u) == ITEM or (core(u)[0] == 'call' and core(u)[1].endswith('::next')) or (peel(u)[0] == 'unwrap' and peel(u)[1][0] == 'call' and peel(u)[1][1].endswith('::next')))
+        SP = Call('Vocab::id_to_token', ('field', ('arg', 1, ANY), 'special_vocab'), PULL)
+        from analysis.alts import expand as _ex, flatten as _fl
+        inner = core(src)
+        alts_ = [a_.value for a_ in _fl(_ex(ctx.facts, d, nosite(inner)))] if inner[0] in ('var', 'phi') else []
+        good_ = [v_ for v_ in alts_ if not (peel(v_)[0] == 'agg' and peel(v_)[1] == 'adt' and (peel(v_)[2].endswith('Result::Err') or peel(v_)[2].endswith('Option::None'))) and
+                 not (peel(v_)[0] == 'call' and peel(v_)[1].rsplit('::', 1)[-1] == 'from_residual')]
+        return bool(good_) and all(has(v_, SP) for v_ in good_)
     kinds = {}
     for l in (top.inner if top is not None else ()):
         f_ = [fits(c, pol) for c, pol in l.conds]
@@ -106,7 +122,7 @@ def r2(ctx):
         if l.kind == 'one' and 1 in f_ and -1 not in f_ and not rest and core(l.elem) == ITEM:
             kinds.setdefault('byte', []).append(l)
         elif l.kind == 'each' and -1 in f_ and 1 not in f_ and core(l.elem) == ('item', 1) and \
-                has(core(l.src), Call('Vocab::id_to_token', ('field', ('arg', 1, ANY), 'special_vocab'), ITEM)) and \
+                via_special(l.src) and \
                 len(rest) == 1 and rest[0][1] is False and match(core(rest[0][0]), ('arg', 3, ANY)):
             kinds.setdefault('special', []).append(l)
         else:
